@@ -125,6 +125,9 @@ def handleFRgb2Hsl (r g b : Rat) (impl : List String) : Verdict :=
                else if Spec.Color.maxR r g b == r then (if g ≥ b then "max-r-upper" else "max-r-wrap")
                else if Spec.Color.maxR r g b == g then "max-g" else "max-b"]
   let v := Verdict.ok tags
+  -- out-of-range input is outside the property ("any in-range RGB colour"): what the code does with it
+  -- (assert, clamp, garbage) is not compared with the model
+  if !inRange then v else
   let model := toHslF r g b
   -- how clearly the model's assertion decides
   let mh := hueF r g b; let ms := satF r g b; let ml := lightF r g b
@@ -200,6 +203,8 @@ def handleFHsl2Rgb (h s l : Rat) (impl : List String) : Verdict :=
   let inRange := Spec.Color.inUnit3 h s l
   let tags := [if inRange then sextantTag h else "hsl-out-of-range", if l ≤ 1/2 then "dark-half" else "light-half"]
   let v := Verdict.ok tags
+  -- out-of-range input is outside the property ("every in-range HSL colour"): not compared with the model
+  if !inRange then v else
   let model := toRgbF h s l
   -- exact channel values before the assertion, to measure how clearly it decides
   let c := chromaF s l; let m := offsetF c l; let x := secondF c (h * 6)
